@@ -64,6 +64,21 @@ def optNode (guarded : Bool) (v20 : Bool) (e : E) (p : Prec) : Option E :=
   | unary op x => some (optUnary op x p)
   | e => some e
 
+/-- the print-time rewrites of a binary node: `a===null||a===undefined → a==null`, `typeof a==="s" → typeof a=="s"`;
+    result: (operator to print, left operand, right operand) -/
+def binPrep (op : BOp) (y : E) (x1 : E) : BOp × E × E :=
+  let e2 : BOp × E × E := match isUndefinedOrNullVar (bin op x1 y) with
+    | some (v, neg) => ((if neg then BOp.ne else BOp.eq), var v, lit .null)
+    | none => (op, x1, y)
+  let op2 := e2.1
+  let x2 := e2.2.1
+  let y2 := e2.2.2
+  let op3 : BOp :=
+    if (op2 == .seq || op2 == .sne) && ((isTypeof x2 && isStrLit y2) || (isTypeof y2 && isStrLit x2)) then
+      (if op2 == .seq then .eq else .ne)
+    else op2
+  (op3, x2, y2)
+
 /-- the binary expression proper of `minifyExpr`'s `BinaryExpr` case, `x1` being the left operand -/
 def binCore (rec : E → Prec → Option E) (op : BOp) (y : E) (x1 : E) : Option E :=
   if op == .inOp || op == .instOf then
@@ -71,18 +86,8 @@ def binCore (rec : E → Prec → Option E) (op : BOp) (y : E) (x1 : E) : Option
     | some x', some y' => some (bin op x' y')
     | _, _ => none
   else
-    let e2 : BOp × E × E := match isUndefinedOrNullVar (bin op x1 y) with
-      | some (v, neg) => ((if neg then BOp.ne else BOp.eq), var v, lit .null)
-      | none => (op, x1, y)
-    let op2 := e2.1
-    let x2 := e2.2.1
-    let y2 := e2.2.2
-    let op3 : BOp :=
-      if (op2 == .seq || op2 == .sne) && ((isTypeof x2 && isStrLit y2) || (isTypeof y2 && isStrLit x2)) then
-        (if op2 == .seq then .eq else .ne)
-      else op2
-    match rec x2 op.left, rec y2 op3.right with
-    | some x', some y' => some (bin op3 x' y')
+    match rec (binPrep op y x1).2.1 op.left, rec (binPrep op y x1).2.2 (binPrep op y x1).1.right with
+    | some x', some y' => some (bin (binPrep op y x1).1 x' y')
     | _, _ => none
 
 /-- the list hoisted out of `(a,b)&&c` at statement level (`none`: no hoisting) -/
@@ -98,6 +103,15 @@ def groupInner (rw : E → Prec → Option E) (x : E) : Option E :=
   match x with
   | .cond c a b => rw (E.cond c a b) opExpr
   | _ => some x
+
+/-- `(5).a`: the number inside the group that is the object of a member expression -/
+def dotNumObj : E → Option Nat
+  | group (lit (.num n)) => some n
+  | _ => none
+
+def strLit? : E → Option String
+  | lit (.str s) => some s
+  | _ => none
 
 /-- the literal cases of `!x`: `!"" → !0`, `!"s" → !1`, `!5 → !1` -/
 def notLit (x : E) : Option E :=
@@ -137,18 +151,18 @@ def descend (rw : E → Prec → Option E) (rec : E → Prec → Option E) (e1 :
         | some r => some r
         | none => (rec x op.argPrec).map (unary op)
     | dot x name =>
-      match x with
-      | group (lit (.num n)) => if n < 1000 then some (dot (lit (.num n)) name) else none
-      | _ => (rec x (if opMember ≤ p then opMember else opCall)).map (fun x' => dot x' name)
+      match dotNumObj x with
+      | some n => if n < 1000 then some (dot (lit (.num n)) name) else none
+      | none => (rec x (if opMember ≤ p then opMember else opCall)).map (fun x' => dot x' name)
     | index x y =>
       match rec x (if p < opMember then opCall else opMember) with
       | none => none
       | some x' =>
-        match y with
-        | lit (.str s) =>
+        match strLit? y with
+        | some s =>
           if s != "" && s.toList.all Char.isAlpha then some (dot x' s)   -- a["b"] → a.b
           else (rec y opExpr).map (index x')
-        | _ => (rec y opExpr).map (index x')
+        | none => (rec y opExpr).map (index x')
     | group x =>
       match groupInner rw x with
       | none => none
